@@ -154,6 +154,57 @@ class C19(Check):
             if (got is None) != (not want):
                 ctx.violation("scan-none-convention", case, f"got {got!r}")
             ctx.outcome(h64((case, sorted(want))))
+            # histories: the same Assembly object scanned again after it changed
+            self.rescan(asm, objs, case, ctx)
+
+    def brute_pairs(self, asm):
+        frs = [(f, sc) for sc in asm.scaffolds for f in sc.fragments()]
+        want = set()
+        for i in range(len(frs)):
+            for j in range(i + 1, len(frs)):
+                f, g = frs[i][0], frs[j][0]
+                if f.name == g.name and max(f.start, g.start) <= min(f.end, g.end):
+                    want.add((id(f), id(g)))
+        return want
+
+    def scan_pairs(self, asm):
+        got = asm.find_overlapping_fragments() or []
+        return {(id(a[0]), id(b[0])) for a, b in got}
+
+    def rescan(self, asm, objs, case, ctx):
+        from tola.assembly.indexed_assembly import IndexedAssembly
+
+        steps = []
+        try:
+            # 1. a row added to an existing scaffold
+            last = asm.scaffolds[-1]
+            last.add_row(Fragment("a", 1, 2, 1))
+            steps.append("add_row")
+            if self.scan_pairs(asm) != self.brute_pairs(asm):
+                ctx.violation("rescan-after-add_row", case + steps, "scan of the modified assembly differs from brute force")
+                return
+            # 2. a scaffold added
+            asm.add_scaffold(Scaffold("extra", [Fragment("b", 2, 3, -1)]))
+            steps.append("add_scaffold")
+            if self.scan_pairs(asm) != self.brute_pairs(asm):
+                ctx.violation("rescan-after-add_scaffold", case + steps, "scan of the modified assembly differs from brute force")
+                return
+            # 3. a row removed
+            asm.scaffolds[0].rows.pop(0)
+            steps.append("pop_row")
+            if self.scan_pairs(asm) != self.brute_pairs(asm):
+                ctx.violation("rescan-after-row-removed", case + steps, "scan of the modified assembly differs from brute force")
+                return
+            # 4. the indexed flavour of the assembly, scanned, extended, scanned again
+            ia = IndexedAssembly.new_from_assembly(asm)
+            if self.scan_pairs(ia) != self.brute_pairs(ia):
+                ctx.violation("indexed-scan", case + steps, "IndexedAssembly scan differs from brute force")
+                return
+            ia.add_scaffold(Scaffold("extra2", [Fragment("a", 2, 2, 1)]))
+            if self.scan_pairs(ia) != self.brute_pairs(ia):
+                ctx.violation("indexed-rescan-after-add_scaffold", case + steps, "IndexedAssembly scan differs from brute force")
+        except Exception as e:  # noqa: BLE001
+            ctx.violation(f"rescan-raises:{type(e).__name__}", case + steps, repr(e))
 
     def check_cli(self, part, ctx):
         from click.testing import CliRunner
